@@ -103,6 +103,7 @@ func (ex *Exec) withCallClauses(fr *Frame, st *State, name string, site ssa.Inst
 	what := ex.siteWhat(site)
 	for _, cc := range clauses {
 		for _, r := range cc.Requires {
+			ex.curClause = "call " + cc.Callee + " requires " + r.Label
 			cond := ex.evalSpecBool(env, r.Expr)
 			ex.obligeSpec(st, "callpre", what+":"+r.Label, cond, r, site)
 		}
@@ -127,6 +128,7 @@ func (ex *Exec) withCallClauses(fr *Frame, st *State, name string, site ssa.Inst
 			ex.usedExterns["call-site assumption in "+funcShortName(fr.fn)+": "+a.Label] = true
 		}
 		for _, g := range cc.Sets {
+			ex.curClause = "call " + cc.Callee + " set " + g.Name
 			ex.setGhost(st, g.Name, ex.evalSpec(env, g.Expr))
 		}
 	}
